@@ -233,8 +233,17 @@ static void buildC01(Rng& r, C01Case* c, int nseg) {
       st.hist["corruptions"][d.substr(0, d.find('@'))]++;
     }
     // the slot: SYN then the fragment; occasionally a second SYN or a late start
+    if (c->cfg.generateSyn && r.chance(1, 3)) {
+      it.waitHostSyn = true;      // the other participants are silent until the host generates the SYN; the fragment starts right after it
+      c->items.push_back(it);
+      st.n["fragments_after_host_syn"]++;
+      if (r.chance(1, 6)) c->items.push_back(s);
+      continue;
+    }
     c->items.push_back(s);
-    if (r.chance(1, 25)) it.gap = (int64_t)r.range(100, 300) * MS;
+    // a late start after a long silence; not when the host generates SYNs itself: where the start falls relative to the host's own SYN
+    // (around the expiry of its receive timeout or not) would be left to chance and the expectation with it
+    if (!c->cfg.generateSyn && r.chance(1, 25)) it.gap = (int64_t)r.range(100, 300) * MS;
     c->items.push_back(it);
     if (r.chance(1, 6)) c->items.push_back(s);
   }
